@@ -55,6 +55,13 @@ type ofn struct {
 	packets   map[types.Object]pktInfo // `p := gopacket.NewPacket(bytes, LT, opts)`
 	closure   []types.Object           // inside the closure given to backoff.Retry: the captured variables it assigns
 	noHoist   int                      // inside the right operand of && / ||: nothing may be hoisted in front of the statement
+
+	// hs.go
+	track       bool                 // a sentinel error returned directly is told apart: the result is `Except String T`
+	notes       []string             // what is not modelled (printed in the doc comment)
+	epoch       int                  // number of exchanges so far on this path
+	rspVars     map[types.Object]int // structures decoded from a response: the epoch they were obtained in
+	cellAliased bool                 // the address of a field of the command struct was taken: no further send
 }
 
 func (f *ofn) fail(n ast.Node, format string, a ...interface{}) {
@@ -124,7 +131,8 @@ func (og *ogen) function(fn *types.Func, from *ofn) *ofnInfo {
 	defer delete(og.inProgress, fn)
 	sig := fn.Type().(*types.Signature)
 	f := &ofn{og: og, src: src, info: src.pkg.TypesInfo, fnObj: fn, names: map[types.Object]string{}, used: map[string]bool{"σ": true},
-		vars: map[types.Object]*otype{}, errVars: map[types.Object]bool{}, needs: map[string]oparam{}, packets: map[types.Object]pktInfo{}}
+		vars: map[types.Object]*otype{}, errVars: map[types.Object]bool{}, needs: map[string]oparam{}, packets: map[types.Object]pktInfo{},
+		rspVars: map[types.Object]int{}}
 	info := &ofnInfo{name: orchLeanName(fn), needs: f.needs}
 	wrap := func(run func()) {
 		defer func() {
@@ -156,6 +164,9 @@ func (og *ogen) function(fn *types.Func, from *ofn) *ofnInfo {
 		info.results = f.results
 		f.pure = !hasErr
 		info.pure = f.pure
+		if og.phaseHs && og.hsTrack[fn] && hasErr && len(f.results) == 1 && f.returnsSentinel() {
+			f.track, info.track = true, true
+		}
 		// receiver and parameters
 		bind := func(id *ast.Ident, isRecv bool) {
 			obj := f.info.Defs[id]
@@ -183,7 +194,9 @@ func (og *ogen) function(fn *types.Func, from *ofn) *ofnInfo {
 					info.cell = ci
 					return
 				}
-				f.fail(id, "pointer parameter %s of type %s", id.Name, t)
+				if !f.readOnlyStructPtr(obj) {
+					f.fail(id, "pointer parameter %s of type %s", id.Name, t)
+				}
 			}
 			ot, ok := og.typeOf(t)
 			if !ok {
@@ -231,6 +244,12 @@ func (og *ogen) function(fn *types.Func, from *ofn) *ofnInfo {
 		fmt.Fprintf(&b, "\n    PARAMETER `%s`: %s", p.name, p.doc)
 		ps = append(ps, fmt.Sprintf("(%s : %s)", p.name, p.typ))
 	}
+	if f.track {
+		b.WriteString("\n    RESULT `Except.error name`: the function returns the package-level sentinel error `name` itself (callers compare with `==`); every other non-nil error is the outcome `err`")
+	}
+	for _, n := range f.notes {
+		fmt.Fprintf(&b, "\n    NOT MODELLED: %s", n)
+	}
 	b.WriteString(" -/\n")
 	if f.pure {
 		fmt.Fprintf(&b, "def %s %s : %s :=\n", info.name, strings.Join(pdecl, " "), f.results[0].lean())
@@ -239,7 +258,11 @@ func (og *ogen) function(fn *types.Func, from *ofn) *ofnInfo {
 		if info.cell != nil {
 			state = "(σ × " + info.cell.named.Obj().Name() + ")"
 		}
-		fmt.Fprintf(&b, "def %s {σ : Type} %s : M %s %s := do\n", info.name, strings.Join(append(ps, pdecl...), " "), state, paren(resultLean(f.results)))
+		res := paren(resultLean(f.results))
+		if f.track {
+			res = "(Except String " + res + ")"
+		}
+		fmt.Fprintf(&b, "def %s {σ : Type} %s : M %s %s := do\n", info.name, strings.Join(append(ps, pdecl...), " "), state, res)
 	}
 	b.WriteString(strings.Join(f.lines, "\n"))
 	b.WriteString("\n")
@@ -506,6 +529,9 @@ func (f *ofn) block(stmts []ast.Stmt, ind int, fin ofin) {
 		case *ast.DeclStmt:
 			f.declStmt(s)
 		case *ast.AssignStmt:
+			if f.plumbing(s) {
+				continue
+			}
 			// the cell: `cmd := &T{…}` / `x := T{…}` whose address is given to SendCommand
 			if f.cellCreation(s) {
 				if f.inJoin > 0 || len(f.loops) > 0 || ind != 1 {
@@ -679,10 +705,20 @@ func (f *ofn) effect(call *ast.CallExpr) (string, []*otype, bool) {
 	if f.pure || f.constOnly {
 		return "", nil, false
 	}
+	if term, resT, ok := f.keysEffect(call); ok {
+		return term, resT, true
+	}
+	if term, ok := f.payloadSend(call); ok {
+		return term, nil, true
+	}
 	if arg, ok := f.sendArg(call); ok {
 		if !f.isCellRef(arg) || !f.hasCell {
 			f.fail(call, "SendCommand with a command that is not the function's command struct")
 		}
+		if f.cellAliased {
+			f.fail(call, "a send after the address of a field of the command struct was taken")
+		}
+		f.epoch++
 		ci := f.cell
 		f.need(oparam{ci.sendName(), fmt.Sprintf("σ → %s → σ × %s × Bool", ci.reqT.lean(), ci.rspT.lean()),
 			fmt.Sprintf("`ValidateResponse(s.SendCommand(ctx, cmd))` for a `%s.%s`: the BMC (and everything below SendCommand) as a function of its state and the request struct — the new state, what the response struct holds afterwards, whether the error is nil",
@@ -699,7 +735,8 @@ func (f *ofn) effect(call *ast.CallExpr) (string, []*otype, bool) {
 	}
 	// a wrapper method of the session: `s.M(ctx)` returning (*Rsp, error)
 	if se, ok := call.Fun.(*ast.SelectorExpr); ok {
-		if id, ok := se.X.(*ast.Ident); ok && f.sessObj != nil && f.info.Uses[id] == f.sessObj {
+		if id, ok := se.X.(*ast.Ident); ok && f.sessObj != nil && f.info.Uses[id] == f.sessObj && staticCallee(f.info, call) == nil {
+			f.epoch++
 			if len(call.Args) != 1 || sig.Results().Len() != 2 {
 				f.fail(call, "session method %s with arguments or several results", se.Sel.Name)
 			}
@@ -747,6 +784,10 @@ func (f *ofn) effect(call *ast.CallExpr) (string, []*otype, bool) {
 	if fi.pure {
 		return "", nil, false
 	}
+	if fi.track {
+		f.fail(call, "call of %s, whose sentinel errors are told apart", callee.Name())
+	}
+	f.epoch++
 	csig := callee.Type().(*types.Signature)
 	var args []string
 	checkArg := func(a ast.Expr, pt types.Type) {
@@ -829,6 +870,9 @@ func (f *ofn) storeResults(n ast.Node, t string, resT []*otype, lhs []ast.Expr) 
 		}
 		f.w("let %s : %s := %s", f.nameOf(obj), resT[i].lean(), proj)
 		f.vars[obj] = resT[i]
+		if resT[i].k == oStruct {
+			f.rspVars[obj] = f.epoch // what an effect hands back may point into the receive buffer
+		}
 	}
 }
 
@@ -875,6 +919,13 @@ func (f *ofn) emitFail() { f.w("fail") }
 
 // emitReturn: a successful return of the value v
 func (f *ofn) emitReturn(n ast.Node, v string) {
+	if f.track {
+		v = "(Except.ok " + paren(v) + ")"
+	}
+	f.emitReturnRaw(n, v)
+}
+
+func (f *ofn) emitReturnRaw(n ast.Node, v string) {
 	if f.inJoin > 0 {
 		f.fail(n, "a return inside a conditional that control flows out of")
 	}
@@ -909,7 +960,7 @@ func (f *ofn) ret(s *ast.ReturnStmt) {
 						f.fail(s, "tail call with other results")
 					}
 				}
-				if len(f.loops) > 0 || f.inJoin > 0 {
+				if len(f.loops) > 0 || f.inJoin > 0 || f.track {
 					f.fail(s, "tail call inside a loop or a conditional that control flows out of")
 				}
 				f.w("%s", term)
@@ -950,6 +1001,7 @@ func (f *ofn) ret(s *ast.ReturnStmt) {
 		switch fullName(staticCallee(f.info, call)) {
 		case "fmt.Errorf", "errors.New":
 			zeros()
+			f.checkErrorArgs(call)
 			f.emitFail()
 			return
 		}
@@ -964,6 +1016,10 @@ func (f *ofn) ret(s *ast.ReturnStmt) {
 	if v, ok := obj.(*types.Var); ok {
 		if v.Pkg() != nil && v.Parent() == v.Pkg().Scope() && f.og.errSentinel(v) {
 			zeros()
+			if f.track {
+				f.emitReturnRaw(s, fmt.Sprintf("(Except.error %q)", v.Name()))
+				return
+			}
 			f.emitFail()
 			return
 		}
@@ -1217,6 +1273,9 @@ func (f *ofn) store(n ast.Node, lhs ast.Expr, v oval) {
 		if !f.hasCell {
 			f.fail(n, "the command struct is used before it exists")
 		}
+		if f.cellAliased {
+			f.fail(n, "the command struct is assigned after the address of one of its fields was taken")
+		}
 		f.w("modifyCell (fun c => %s)", nestedUpdate("c", path, v.s))
 		return
 	}
@@ -1263,6 +1322,10 @@ func (f *ofn) assign(s *ast.AssignStmt) {
 		f.fail(s, "multiple assignment")
 	}
 	lhs, rhs := s.Lhs[0], s.Rhs[0]
+	if id, ok := lhs.(*ast.Ident); ok && id.Name == "_" && s.Tok == token.ASSIGN {
+		f.expr(rhs) // `_ = e`: e is evaluated (what it hoists stays) and discarded
+		return
+	}
 	want := f.placeType(s, lhs)
 	if id, ok := lhs.(*ast.Ident); ok {
 		if obj := f.info.Uses[id]; obj != nil && f.errVars[obj] {
@@ -1275,6 +1338,12 @@ func (f *ofn) assign(s *ast.AssignStmt) {
 		if want.k == oList || want.k == oBytes {
 			if _, isCell := f.cellPath(rhs); isCell {
 				f.fail(s, "a slice of the command struct is stored without copying (it aliases what the next response overwrites)")
+			}
+		}
+		if u, ok := rhs.(*ast.UnaryExpr); ok && u.Op == token.AND {
+			if _, isCell := f.cellPath(u.X); isCell {
+				// a pointer into the command struct: its value as long as the struct is not written again
+				f.cellAliased = true
 			}
 		}
 		if call, ok := rhs.(*ast.CallExpr); ok {
@@ -1374,6 +1443,9 @@ func (f *ofn) ifStmt(s *ast.IfStmt, rest []ast.Stmt, ind int, fin ofin) bool {
 		as, ok := s.Init.(*ast.AssignStmt)
 		if !ok || len(as.Rhs) != 1 {
 			f.fail(s, "if statement with an initialiser of unsupported form")
+		}
+		if f.randReadIdiom(s, as) {
+			return false
 		}
 		// `if [v…,] err := EFFECT; err != nil { return zero…, err }`
 		if call, ok := as.Rhs[0].(*ast.CallExpr); ok {
